@@ -158,3 +158,77 @@ pub fn blocks(file: &[u8]) -> Option<Vec<Block>> {
     }
     Some(out)
 }
+
+/// Every size / counter / coordinate field of the data containers of a file as `(field, value)`
+/// pairs (for *coverage* counters: which ITF8/LTF8 width boundaries the written files reached).
+pub fn fields(file: &[u8]) -> Option<Vec<(&'static str, i64)>> {
+    let mut out = Vec::new();
+    let mut p = 26usize;
+    let mut first = true;
+    while p < file.len() {
+        let len = i32::from_le_bytes(file.get(p..p + 4)?.try_into().ok()?) as usize;
+        p += 4;
+        let ref_id = itf8(file, &mut p)?;
+        let start = itf8(file, &mut p)?;
+        let span = itf8(file, &mut p)?;
+        let nrec = itf8(file, &mut p)?;
+        let counter = ltf8(file, &mut p)?;
+        let bases = ltf8(file, &mut p)?;
+        let nblocks = itf8(file, &mut p)?;
+        let nl = itf8(file, &mut p)?;
+        let mut landmarks = Vec::new();
+        for _ in 0..nl {
+            landmarks.push(itf8(file, &mut p)?);
+        }
+        p += 4;
+        let end = p + len;
+        let data = !first && !(nrec == 0 && nl == 0);
+        if data {
+            out.push(("container.length", len as i64));
+            out.push(("container.records", nrec as i64));
+            out.push(("container.record-counter", counter));
+            out.push(("container.bases", bases));
+            out.push(("container.block-count", nblocks as i64));
+            for l in &landmarks {
+                out.push(("container.landmark", *l as i64));
+            }
+            if ref_id >= 0 {
+                out.push(("container.start", start as i64));
+                out.push(("container.span", span as i64));
+            }
+        }
+        while p < end {
+            let method = *file.get(p)?;
+            let content_type = *file.get(p + 1)?;
+            p += 2;
+            itf8(file, &mut p)?;
+            let csize = itf8(file, &mut p)? as usize;
+            let rsize = itf8(file, &mut p)? as usize;
+            if data {
+                out.push(("block.compressed-size", csize as i64));
+                out.push(("block.raw-size", rsize as i64));
+            }
+            if data && content_type == 2 && method == 0 {
+                let h = file.get(p..p + csize)?;
+                let mut q = 0usize;
+                let sref = itf8(h, &mut q)?;
+                let sstart = itf8(h, &mut q)?;
+                let sspan = itf8(h, &mut q)?;
+                let srec = itf8(h, &mut q)?;
+                let scounter = ltf8(h, &mut q)?;
+                let sblocks = itf8(h, &mut q)?;
+                out.push(("slice.records", srec as i64));
+                out.push(("slice.record-counter", scounter));
+                out.push(("slice.block-count", sblocks as i64));
+                if sref >= 0 {
+                    out.push(("slice.start", sstart as i64));
+                    out.push(("slice.span", sspan as i64));
+                }
+            }
+            p += csize + 4;
+        }
+        p = end;
+        first = false;
+    }
+    Some(out)
+}
